@@ -685,7 +685,7 @@ fn main() {
     driver::main(CheckDef {
         prop: "C19",
         level: "model_checking",
-        rule: "E3: every sequence of depth <= 4 (thorough 6) over {63, 64, 65, 130 records into one histogram, one record, 65 records into another, snapshot} (windows around the 64-slot block size of the bucket); every sequence of the stated depth over 19 operations (describe with two different units / without unit and four texts, register of 4 keys incl. an equal key built differently, absolute counter values below and above the current one, increments through a pair of equal keys whose two labels share a name and are spelled in either order and the same name under three kinds, counter/gauge/histogram updates, snapshot) on a fresh real DebuggingRecorder, plus a final snapshot; every snapshot compared with a reference (first-registration order, described-only metrics absent, latest description, unit kept, histogram values since the previous snapshot); 450 metrics on one recorder with snapshots at doubling sizes (every map grows several times); all pairs of 3-step macro programs on two threads with local recorders; all programs of <= 2 local scopes (closure or guard, left normally or by a caught panic, optionally one nested scope) over two recorders on one thread, each recorder's snapshot listing exactly the emissions made while it was innermost; E1: all SC interleavings of a recording thread with a snapshotting thread; distinct = distinct snapshots",
+        rule: "E3: every sequence of depth <= 4 (thorough 6) over {63, 64, 65, 130 records into one histogram, one record, 65 records into another, snapshot} (windows around the 64-slot block size of the bucket); every sequence of the stated depth over 19 operations (describe with two different units / without unit and four texts, register of 4 keys incl. an equal key built differently, absolute counter values below and above the current one, increments through a pair of equal keys whose two labels share a name and are spelled in either order and the same name under three kinds, counter/gauge/histogram updates, snapshot) on a fresh real DebuggingRecorder, plus a final snapshot; every snapshot compared with a reference (first-registration order, described-only metrics absent, latest description, unit kept, histogram values since the previous snapshot); 450 metrics on one recorder with snapshots at doubling sizes (every map grows several times); all pairs of 3-step macro programs on two threads with local recorders; all programs of <= 2 local scopes (closure or guard, left normally or by a caught panic, optionally one nested scope) over two recorders on one thread, each recorder's snapshot listing exactly the emissions made while it was innermost; E1: all SC interleavings of a recording thread with a snapshotting thread; distinct = distinct snapshots; counter.absolute below and above the current value",
         assumptions: &["E1: sequential consistency, one registry shard"],
         parts,
         run,
